@@ -191,7 +191,15 @@ class Transformer(ast.NodeTransformer):
         return node
 
     # ---- (2)
+    @staticmethod
+    def _binds(node):
+        """an assignment expression inside: the operands cannot be wrapped into lambdas (the name would be bound there)"""
+        return any(isinstance(n, ast.NamedExpr) for n in ast.walk(node))
+
     def visit_BoolOp(self, node):
+        if self._binds(node):
+            self.generic_visit(node)
+            return node
         self.generic_visit(node)
         fn = 'and_' if isinstance(node.op, ast.And) else 'or_'
         return ast.copy_location(ast.Call(_rt(fn), [_thunk(v) for v in node.values], []), node)
@@ -203,6 +211,9 @@ class Transformer(ast.NodeTransformer):
         return node
 
     def visit_IfExp(self, node):
+        if self._binds(node):
+            self.generic_visit(node)
+            return node
         self.generic_visit(node)
         return ast.copy_location(ast.Call(_rt('ifexp'), [node.test, _thunk(node.body), _thunk(node.orelse)], []), node)
 
@@ -231,6 +242,9 @@ class Transformer(ast.NodeTransformer):
         self.generic_visit(node)
         if isinstance(node.func, ast.Attribute) and node.func.attr == 'join' and len(node.args) == 1 and not node.keywords:
             return ast.copy_location(ast.Call(_rt('join'), [node.func.value, node.args[0]], []), node)
+        if isinstance(node.func, ast.Attribute) and node.func.attr == 'get' and 1 <= len(node.args) <= 2 and not node.keywords \
+                and not any(isinstance(a, ast.Starred) for a in node.args):
+            return ast.copy_location(ast.Call(_rt('dict_get'), [node.func.value] + list(node.args), []), node)
         return node
 
     # ---- (4) (5)
